@@ -61,8 +61,9 @@ CHECKS = {
         text=('Coq theorems about a model of TruncFormatter and fixed-column records: with the t option a field has exactly '
               'its width for every value, so in any layout the columns of field i hold exactly the formatted value i '
               '(overflow cannot shift or corrupt another field); fitting integers and names are read back unchanged by '
-              'slice+strip+convert (decimal print/parse inverse from Coq DecimalString); over-long values keep their '
-              'significant end. The PDB ATOM/TER/CONECT and GRO format strings and the readers field tables are '
+              'slice+strip+convert (decimal print/parse inverse from Coq DecimalString), and so are fixed-point numbers of '
+              'any size and sign with p decimals (digit-string value, concatenation and no-leading-zero lemmas over the '
+              'standard-library decimal parser); over-long values keep their significant end. The PDB ATOM/TER/CONECT and GRO format strings and the readers field tables are '
               'regenerated from the source on every run and proved compatible (finite vm_compute theorems). A structural '
               'theorem shows the bonds rebuilt from CONECT records are exactly the bonds written (injective serials, '
               'chunking loses nothing). Tie: real formatter/writers compared character for character with the model; '
